@@ -384,6 +384,7 @@ class Engine(ExprMixin):
             self.exec_stmt(s, env, cls)
 
     def exec_stmt(self, s, env, cls):
+        self.cur_env = env
         m = getattr(self, "s_" + type(s).__name__, None)
         if m is None:
             raise Unsupported(f"stmt {type(s).__name__} at line {s.lineno}")
@@ -549,7 +550,15 @@ class Engine(ExprMixin):
             self.exec_block(s.orelse, env, cls)
 
     def s_With(self, s, env, cls):
-        raise Unsupported("with")
+        # only contract-provided context managers (objects with sym_enter) are in the subset
+        for item in s.items:
+            ctx = self.eval(item.context_expr, env, cls)
+            if not hasattr(ctx, "sym_enter"):
+                raise Unsupported("with " + type(ctx).__name__)
+            v = ctx.sym_enter(self)
+            if item.optional_vars is not None:
+                self.assign(item.optional_vars, v, env, cls)
+        self.exec_block(s.body, env, cls)
 
     def loop_key(self, s):
         fn = self.curfn[-1] if self.curfn else "<top>"
